@@ -15,6 +15,9 @@ N7  boolean flag consumed by the next statement
         if ok: ...                            ok read nowhere else
     ==> if a is not None and not b: ...
 
+N8  local dict literal            d = {"k": a, ...} bound once, only read  ==>  loads of d replaced by the literal (see _propagate_dict_literals)
+N9  any()/all() over a literal    any(E(k, v) for k, v in {...}.items())  ==>  E(k1, v1) or E(k2, v2) ...   for boolean-valued E (see _AnyAll)
+
 N2  dict.update with keywords / a literal dict on such an attribute, as a statement
         self._cache.update(a=x, b=y)      /     self._cache.update({"a": x, "b": y})
     ==> self._cache["a"] = x; self._cache["b"] = y      (same order; dict.update assigns the keys one after another)
@@ -58,8 +61,17 @@ import ast
 import copy
 
 
-def _private_attr(e):
-    return isinstance(e, ast.Attribute) and e.attr.startswith("_") and not e.attr.startswith("__") and isinstance(e.value, ast.Name)
+def _chain_root(e):
+    """the Name an attribute chain hangs off (a.b.c -> a), None when anything but attributes is involved"""
+    while isinstance(e, ast.Attribute):
+        e = e.value
+    return e if isinstance(e, ast.Name) else None
+
+
+def _private_attr(e, chain=False):
+    if not (isinstance(e, ast.Attribute) and e.attr.startswith("_") and not e.attr.startswith("__")):
+        return False
+    return isinstance(e.value, ast.Name) or (chain and _chain_root(e.value) is not None)
 
 
 class _Scope(ast.NodeVisitor):
@@ -164,11 +176,17 @@ def _aliases(fnode):
         if name in sc.bad or name in params or len(vals) != 1 or vals[0] is None:
             continue
         v = vals[0]
-        if not _private_attr(v):
+        if not _private_attr(v, chain=True):
             continue
-        obj = v.value.id
+        obj = _chain_root(v).id
         # the object the attribute hangs off must itself be stable: a parameter or self, never rebound
         if obj not in params or obj in sc.bind or obj in sc.bad:
+            continue
+        if not isinstance(v.value, ast.Name):
+            # self.a._b : the intermediate attributes are read-only views in this package (uxgrid, ...); nothing along the chain may be assigned here
+            if any(isinstance(x, ast.Attribute) and isinstance(x.ctx, (ast.Store, ast.Del)) and _chain_root(x) is not None and _chain_root(x).id == obj for x in ast.walk(fnode)):
+                continue
+            out[name] = v
             continue
         if (obj, v.attr) in sc.attr_stores:
             # still the same object at every use when, in loop-free code, every use comes before the first rebinding of the attribute
@@ -184,6 +202,112 @@ def _aliases(fnode):
 
 def _has_loop(fnode):
     return any(isinstance(x, (ast.For, ast.AsyncFor, ast.While, ast.ListComp, ast.SetComp, ast.DictComp, ast.GeneratorExp)) for x in ast.walk(fnode))
+
+
+_DICT_READERS = {"items", "keys", "values", "get", "copy"}
+
+
+def _propagate_dict_literals(fn):
+    """N8:  d = {"k": a, ...}   bound once, never mutated (no d[...] = ..., del d[...], no method other than items/keys/values/get/copy), never passed somewhere
+    that could keep it -- EXCEPT as a plain argument (the callee may read it) -- and whose value expressions are names that are not rebound anywhere in the function
+    ==> every load of d is replaced by the literal."""
+    sc = _Scope()
+    for st in fn.body:
+        sc.visit(st)
+    params = {a.arg for a in fn.args.posonlyargs + fn.args.args + fn.args.kwonlyargs}
+    cands = {}
+    loops = _has_loop(fn)
+    for name, vals in sc.bind.items():
+        if name in params or name in sc.bad or len(vals) != 1 or not isinstance(vals[0], ast.Dict):
+            continue
+        d = vals[0]
+        if not d.keys or any(k is None or not isinstance(k, ast.Constant) for k in d.keys):
+            continue
+        ok = True
+        for v in d.values:
+            if isinstance(v, ast.Constant):
+                continue
+            if isinstance(v, ast.Name) and (v.id in params or v.id not in sc.bind) and v.id not in sc.bad and not (v.id in params and v.id in sc.bind):
+                continue
+            # a name that is (re)bound in the function is still stable from the literal on when, in loop-free code, every binding precedes the literal
+            if isinstance(v, ast.Name) and v.id not in sc.bad and not loops:
+                st_lines = [x.lineno for x in ast.walk(fn) if isinstance(x, ast.Name) and x.id == v.id and isinstance(x.ctx, (ast.Store, ast.Del))]
+                if st_lines and max(st_lines) < d.lineno:
+                    continue
+            ok = False
+        if ok:
+            cands[name] = d
+    if not cands:
+        return 0
+    parent = {}
+    for x in ast.walk(fn):
+        for ch in ast.iter_child_nodes(x):
+            parent[id(ch)] = x
+    for x in ast.walk(fn):
+        if isinstance(x, ast.Name) and x.id in cands and isinstance(x.ctx, ast.Load):
+            p = parent.get(id(x))
+            if isinstance(p, ast.Attribute) and p.value is x:
+                if p.attr not in _DICT_READERS:
+                    cands.pop(x.id, None)
+            elif isinstance(p, ast.Subscript) and p.value is x and isinstance(p.ctx, (ast.Store, ast.Del)):
+                cands.pop(x.id, None)
+            elif isinstance(p, (ast.Return, ast.Yield)):
+                cands.pop(x.id, None)       # handed out: identity may matter to the caller
+            elif isinstance(p, ast.Assign) and p.value is x:
+                cands.pop(x.id, None)       # aliased / stored somewhere
+    if not cands:
+        return 0
+    sub = _ConstSubst(cands)
+    fn.body = [sub.visit(st) for st in fn.body]
+    return len(cands)
+
+
+class _AnyAll(ast.NodeTransformer):
+    """N9:  any(<boolean expr in k, v> for k, v in {literal}.items())  ==>  expr[k1, v1] or expr[k2, v2] ...    (all -> and; also over literal tuples/lists,
+    .keys(), .values()).  Only when the element expression is itself boolean-valued (comparison, not, and/or, isinstance): then the chain is a bool, as any()/all() is."""
+
+    def __init__(self):
+        self.count = 0
+
+    def visit_Call(self, n):
+        self.generic_visit(n)
+        if not (isinstance(n.func, ast.Name) and n.func.id in ("any", "all") and len(n.args) == 1 and not n.keywords and isinstance(n.args[0], (ast.GeneratorExp, ast.ListComp))):
+            return n
+        g = n.args[0]
+        if len(g.generators) != 1 or g.generators[0].ifs or g.generators[0].is_async:
+            return n
+        gen = g.generators[0]
+        tg = gen.target
+        names = [tg.id] if isinstance(tg, ast.Name) else [e.id for e in tg.elts] if isinstance(tg, ast.Tuple) and all(isinstance(e, ast.Name) for e in tg.elts) else None
+        if not names:
+            return n
+        it = gen.iter
+        entries = None
+        if isinstance(it, ast.Call) and isinstance(it.func, ast.Attribute) and not it.args and isinstance(it.func.value, ast.Dict) and all(k is not None for k in it.func.value.keys):
+            d = it.func.value
+            if it.func.attr == "items" and len(names) == 2:
+                entries = list(zip(d.keys, d.values))
+            elif it.func.attr == "keys" and len(names) == 1:
+                entries = [(k,) for k in d.keys]
+            elif it.func.attr == "values" and len(names) == 1:
+                entries = [(v,) for v in d.values]
+        elif isinstance(it, (ast.Tuple, ast.List)) and len(names) == 1:
+            entries = [(e,) for e in it.elts]
+        elif isinstance(it, (ast.Tuple, ast.List)) and all(isinstance(e, ast.Tuple) and len(e.elts) == len(names) for e in it.elts):
+            entries = [tuple(e.elts) for e in it.elts]
+        if not entries or len(entries) > 12:
+            return n
+        if not all(isinstance(x, (ast.Name, ast.Constant, ast.Attribute, ast.Subscript)) for e in entries for x in e):
+            return n
+        elt = g.elt
+        if not isinstance(elt, (ast.Compare, ast.BoolOp)) and not (isinstance(elt, ast.UnaryOp) and isinstance(elt.op, ast.Not)) and not (isinstance(elt, ast.Call) and isinstance(elt.func, ast.Name) and elt.func.id == "isinstance"):
+            return n
+        vals = [_ConstSubst(dict(zip(names, e))).visit(copy.deepcopy(elt)) for e in entries]
+        self.count += 1
+        new = vals[0] if len(vals) == 1 else ast.BoolOp(op=ast.Or() if n.func.id == "any" else ast.And(), values=vals)
+        for x in ast.walk(new):
+            ast.copy_location(x, n)
+        return new
 
 
 def _inline_flags(fn):
@@ -604,7 +728,7 @@ def _inline_expr_helpers(tree):
         if len(body) != 1 or not isinstance(body[0], ast.Return) or body[0].value is None:
             continue
         e = body[0].value
-        if any(isinstance(x, (ast.Lambda, ast.NamedExpr, ast.ListComp, ast.SetComp, ast.DictComp, ast.GeneratorExp, ast.Yield, ast.YieldFrom, ast.Await)) for x in ast.walk(e)):
+        if any(isinstance(x, (ast.Lambda, ast.NamedExpr, ast.Yield, ast.YieldFrom, ast.Await)) for x in ast.walk(e)):
             continue
         if any(isinstance(x, ast.Call) and isinstance(x.func, ast.Name) and x.func.id == st.name for x in ast.walk(e)):
             continue
@@ -660,6 +784,10 @@ def _inline_expr_helpers(tree):
                         elif x.id in local:
                             return n          # a module-level name of the helper is shadowed in the caller
                 if any(not simple(a) and uses.get(prm, 0) != 1 for prm, a in bind.items()):
+                    return n
+                # names bound inside the helper's expression (comprehension targets) must not capture a name used by an argument
+                bound = {y.id for x in ast.walk(e) if isinstance(x, ast.comprehension) for y in ast.walk(x.target) if isinstance(y, ast.Name)}
+                if bound & ({y.id for a in bind.values() for y in ast.walk(a) if isinstance(y, ast.Name)} | set(bind)):
                     return n
                 new = _ConstSubst(bind).visit(copy.deepcopy(e))
                 for x in ast.walk(new):
@@ -779,6 +907,9 @@ def _inline_noreturn(tree):
 
 def normalise(tree):
     n_alias = n_upd = 0
+    n_dict = 0
+    for fn in [n for n in ast.walk(tree) if isinstance(n, (ast.FunctionDef, ast.AsyncFunctionDef))]:
+        n_dict += _propagate_dict_literals(fn)
     n_inlined0 = _inline_wrappers(tree)      # before N5: a thin wrapper that rules know by name keeps its name in its callers
     n_noret = _inline_noreturn(tree)
     n_expr = 0
@@ -788,6 +919,8 @@ def normalise(tree):
         if not k:
             break
     n_inlined = n_inlined0 + _inline_wrappers(tree)
+    aa = _AnyAll()
+    aa.visit(tree)
     tables = _module_tables(tree)
     n_unrolled = 0
     for fn in [n for n in ast.walk(tree) if isinstance(n, (ast.FunctionDef, ast.AsyncFunctionDef))]:
@@ -807,4 +940,4 @@ def normalise(tree):
     _Updates().visit(tree)
     n_upd = sum(1 for n in ast.walk(tree) if isinstance(n, ast.Assign)) - before
     ast.fix_missing_locations(tree)
-    return tree, {"aliases_inlined": n_alias, "update_keys_split": n_upd, "table_loops_unrolled": n_unrolled, "wrappers_inlined": n_inlined, "expression_helpers_inlined": n_expr, "noreturn_helpers_inlined": n_noret, "flags_inlined": n_flags}
+    return tree, {"aliases_inlined": n_alias, "update_keys_split": n_upd, "table_loops_unrolled": n_unrolled, "wrappers_inlined": n_inlined, "expression_helpers_inlined": n_expr, "noreturn_helpers_inlined": n_noret, "flags_inlined": n_flags, "dict_literals_propagated": n_dict, "any_all_expanded": aa.count}
